@@ -172,3 +172,38 @@ def offsets_agree(U, chunk):
 
 
 offsets_agree.enumerate_inputs = lambda tier, chunk: S.enumerator(tier, chunk)
+
+
+from contracts import xrefsuite as XS  # noqa: E402
+
+
+@unit("C40", covers=[(ANA, "Analysis._create_xref")], params=XS.PARAMS, level="bounded", note=XS.NOTE)
+def xref_offsets_are_instruction_offsets(U, chunk):
+    g = U.given or {"split": 0, "order": 0, "a": 1, "b": 7}
+    U.drawn.update(g)
+    o = U.call(XS.build, U, g)
+    if not o.ok:
+        U.ensures("analysis does not raise", False, exc=repr(o.exc), **g)
+        return
+    dx, vms, index, prog = o.value
+    offs = {("LA;", "m1"): {0, 4}, ("LB;", "m1"): {8, 12}}
+    v = XS.view(dx)
+    bad = []
+    for mk, d in v["methods"].items():
+        mine = offs.get((mk[0], mk[1]), set())
+        for kind in ("to", "read", "write", "new", "const"):
+            for entry in d[kind]:
+                if entry[-1] not in mine:
+                    bad.append((mk, kind, entry))
+        for (_, src, off) in d["from"]:
+            if off not in offs.get((src[0], src[1]), set()):
+                bad.append((mk, "from", off))
+    for s, refs in v["strings"].items():
+        for (_, src, off) in refs:
+            if off not in offs.get((src[0], src[1]), set()):
+                bad.append((s, "string", off))
+    U.ensures("every cross-reference offset is an offset at which the source method's disassembly reports an instruction",
+              not bad, bad=bad[:5], **g)
+
+
+xref_offsets_are_instruction_offsets.enumerate_inputs = lambda tier, chunk: XS.enum_inputs(tier, chunk)
